@@ -35,7 +35,7 @@ var c15Kinds = []string{"swagger", "swagger", "swagger", "schema", "schema", "pa
 
 type c15Stats struct {
 	pointers, asserted, skippedRef, skippedUnlisted, deep int
-	ntKeys                                                  []string
+	ntKeys                                                []string
 }
 
 func oracleC15(c codecCase) (*vstat.Failure, c15Stats) {
